@@ -545,6 +545,33 @@ fn c15_jobs(tier: Tier) -> Vec<HybJob> {
             });
         }
     }
+    // A burst of writes right before close: under write-on-eviction the evicted entries are still in the write
+    // queue (the flusher has not run) when close() starts. The pending writes fit the 64 KiB flush buffer and so
+    // does the resident set — each by itself, which is what close() relies on by waiting for the queue first.
+    {
+        let mut cfg = HybCfg::small(false, true);
+        cfg.mem_capacity = 3;
+        // one 2-page entry per 16 KiB block: enough blocks that the disk's own capacity eviction stays out
+        cfg.blocks = 16;
+        for n in [8u64, 9] {
+            let mut prog: Vec<HOp> = (1..=n).map(|k| HOp::Ins { k, sz: 5000, loc: Loc::Default }).collect();
+            prog.push(HOp::Close);
+            for policy in [ClientFirst, LazyIo] {
+                jobs.push(HybJob {
+                    cfg: cfg.clone(),
+                    prog: prog.clone(),
+                    policy,
+                    opts: RunOpts {
+                        final_reads: false,
+                        final_restart: true,
+                        universe: (1..=n).collect(),
+                        ..Default::default()
+                    },
+                    bound: 0,
+                });
+            }
+        }
+    }
     jobs
 }
 
@@ -912,7 +939,7 @@ fn c17_judge(job: &HybJob, out: &RunOut) -> Vec<Complaint> {
     v
 }
 
-fn c17_jobs(tier: Tier) -> Vec<HybJob> {
+pub(crate) fn c17_jobs(tier: Tier) -> Vec<HybJob> {
     let mut jobs = vec![];
     // keys 1 and 2 collide on the full 64-bit hash; key 3 shares only the memory shard / indexer shard.
     let table = vec![0u64, 77, 77, 78];
@@ -956,6 +983,38 @@ fn c17_jobs(tier: Tier) -> Vec<HybJob> {
                         ..Default::default()
                     },
                     bound: *bound,
+                });
+            }
+        }
+    }
+    // Directed longer histories (both tiers): one colliding key is queued for writing while the other one, loaded
+    // back from a young disk block, is evicted again (the engine skips it and gives its write-queue reference
+    // back at once, out of FIFO order), then rewritten and evicted once more.
+    let ins = |k: u64| HOp::Ins { k, sz: 100, loc: Loc::Default };
+    let fill = HOp::Fill { n: 3 };
+    let directed: Vec<(Vec<HOp>, Vec<HOp>)> = vec![
+        (vec![ins(2), fill, HOp::Wait], vec![ins(1), fill, HOp::Get { k: 2 }, fill, ins(2), fill, HOp::Get { k: 1 }, HOp::Get { k: 2 }]),
+        (vec![ins(1), fill, HOp::Wait], vec![ins(2), fill, HOp::Get { k: 1 }, fill, ins(1), fill, HOp::Get { k: 2 }, HOp::Get { k: 1 }]),
+        (vec![ins(2), fill, HOp::Wait], vec![ins(1), HOp::Get { k: 2 }, fill, HOp::Get { k: 2 }, fill, HOp::Rm { k: 1 }, HOp::Get { k: 2 }]),
+    ];
+    for woi in [true, false] {
+        let mut cfg = HybCfg::small(woi, true);
+        cfg.hash_table = table.clone();
+        cfg.mem_capacity = 3;
+        for (prologue, prog) in directed.iter() {
+            for (policy, bound) in [(LazyIo, 1usize), (Alternate, 0), (ClientFirst, 0), (Eager, 0)] {
+                jobs.push(HybJob {
+                    cfg: cfg.clone(),
+                    prog: prog.clone(),
+                    policy,
+                    opts: RunOpts {
+                        final_reads: true,
+                        final_restart: true,
+                        universe: vec![1, 2, 3],
+                        prologue: prologue.clone(),
+                        ..Default::default()
+                    },
+                    bound,
                 });
             }
         }
